@@ -80,11 +80,13 @@ theorem handle_forward (env : Env) (conn : Conn) (r : Req) (u : UpReq)
 theorem forwardStage_forward (env : Env) (caller : Caller) (r : Req) (u : UpReq)
     (h : forwardStage mac env caller r = .forward u) :
     u.method = r.method ∧ u.uri = r.uri ∧ u.body = r.body ∧ r.body.length ≤ limitFor r ∧
-    ((u.headers = ownedHeaders env caller r ∧ u.signed = none ∧
-        (shouldSkipSig r.method r.uri = true ∨ env.key = none ∨ ∃ g k, env.key = some (g, k) ∧ isHexKey k = false)) ∨
+    ((u.headers = ownedHeaders env caller r ∧ u.signed = none ∧ shouldSkipSig r.method r.uri = true) ∨
+     (u.headers = signedHeaders r (ownedHeaders env caller r) ∧ u.signed = none ∧
+        (env.key = none ∨ ∃ g k, env.key = some (g, k) ∧ isHexKey k = false)) ∨
      (∃ guid key si, env.key = some (guid, key) ∧ shouldSkipSig r.method r.uri = false ∧ isHexKey key = true ∧
-        sigInput r.method r.body (ownedHeaders env caller r) r.uri = some si ∧
-        u.headers = insert authHeader (authScheme ++ [' '] ++ guid ++ [' '] ++ mac key si) (ownedHeaders env caller r) ∧
+        sigInput r.method r.body (signedHeaders r (ownedHeaders env caller r)) r.uri = some si ∧
+        u.headers = insert authHeader (authScheme ++ [' '] ++ guid ++ [' '] ++ mac key si)
+          (signedHeaders r (ownedHeaders env caller r)) ∧
         u.signed = some (guid, si))) := by
   unfold forwardStage at h
   simp only at h
@@ -96,7 +98,7 @@ theorem forwardStage_forward (env : Env) (caller : Caller) (r : Req) (u : UpReq)
   · rw [if_pos hs] at h
     simp only [mkForward, Outcome.forward.injEq] at h
     subst h
-    exact ⟨rfl, rfl, rfl, hle, Or.inl ⟨rfl, rfl, Or.inl hs⟩⟩
+    exact ⟨rfl, rfl, rfl, hle, Or.inl ⟨rfl, rfl, hs⟩⟩
   · rw [if_neg hs] at h
     unfold signStage at h
     cases hk : env.key with
@@ -104,13 +106,13 @@ theorem forwardStage_forward (env : Env) (caller : Caller) (r : Req) (u : UpReq)
       rw [hk] at h
       simp only [mkForward, Outcome.forward.injEq] at h
       subst h
-      exact ⟨rfl, rfl, rfl, hle, Or.inl ⟨rfl, rfl, Or.inr (Or.inl rfl)⟩⟩
+      exact ⟨rfl, rfl, rfl, hle, Or.inr (Or.inl ⟨rfl, rfl, Or.inl rfl⟩)⟩
     | some gk =>
       obtain ⟨guid, key⟩ := gk
       rw [hk] at h
       simp only at h
       cases hsi : sigInput r.method r.body
-          (insert dateHeader env.now (insert claimsHeader (claimsValue caller.elevated) (ofWire r.headers))) r.uri with
+          (signedHeaders r (insert dateHeader env.now (insert claimsHeader (claimsValue caller.elevated) (ofWire r.headers)))) r.uri with
       | none => rw [hsi] at h; cases h
       | some si =>
         rw [hsi] at h
@@ -119,10 +121,10 @@ theorem forwardStage_forward (env : Env) (caller : Caller) (r : Req) (u : UpReq)
         · rw [if_pos hx] at h
           simp only [mkForward, Outcome.forward.injEq] at h
           subst h
-          exact ⟨rfl, rfl, rfl, hle, Or.inr ⟨guid, key, si, rfl, by simpa using hs, hx, hsi, rfl, rfl⟩⟩
+          exact ⟨rfl, rfl, rfl, hle, Or.inr (Or.inr ⟨guid, key, si, rfl, by simpa using hs, hx, hsi, rfl, rfl⟩)⟩
         · rw [if_neg hx] at h
           simp only [mkForward, Outcome.forward.injEq] at h
           subst h
-          exact ⟨rfl, rfl, rfl, hle, Or.inl ⟨rfl, rfl, Or.inr (Or.inr ⟨guid, key, rfl, by simpa using hx⟩)⟩⟩
+          exact ⟨rfl, rfl, rfl, hle, Or.inr (Or.inl ⟨rfl, rfl, Or.inr ⟨guid, key, rfl, by simpa using hx⟩⟩)⟩
 
 end Gpa.Pipeline
